@@ -12,8 +12,8 @@ from mc.ref.portgraph import PortGraph
 
 BOUNDS = {
     # max live nodes incl. root, max links, BFS depth, root usable as link endpoint, requested out counts
-    "quick": dict(max_nodes=3, max_links=3, depth=5, root_links=False, req=(None, 3), inserts=("one",)),
-    "thorough": dict(max_nodes=4, max_links=3, depth=5, root_links=True, req=(None, 3), inserts=("one", "dfg")),
+    "quick": dict(max_nodes=3, max_links=3, depth=5, root_links=False, req=(None, 3), inserts=("one", "reused")),
+    "thorough": dict(max_nodes=4, max_links=3, depth=5, root_links=True, req=(None, 3), inserts=("one", "dfg", "reused"), mixed="all"),
 }
 OFFS = (0, 1)
 
@@ -27,6 +27,16 @@ def _mk_fragment(name):
         h = Hugr(ops.Custom("frag_one"))
         desc = {"nodes": [(0, None, "frag_one")], "links": []}
         return h, desc
+    if name == "reused":
+        # a fragment with a history: an index was freed and taken again, so the child order (b, c) is not
+        # the index order (c=1, b=2) and no free index is left
+        h = Hugr(ops.Custom("frag_root"))
+        a = h.add_node(ops.Custom("frag_a"), h.root, 1)
+        b = h.add_node(ops.Custom("frag_b"), h.root, 1, metadata={"k": 2})
+        h.delete_node(a)
+        c = h.add_node(ops.Custom("frag_c"), h.root, 1)
+        h.add_link(b.out(0), c.inp(0))
+        return h, None
     h = Hugr(ops.Custom("frag_root"))
     a = h.add_node(ops.Custom("frag_a"), h.root, 2, metadata={"k": 1})
     b = h.add_node(ops.Custom("frag_b"), h.root)
@@ -45,7 +55,8 @@ class S:
 
 
 class Machine:
-    def __init__(self, max_nodes, max_links, depth, root_links, req, inserts, seed=0, raw_order=True):
+    def __init__(self, max_nodes, max_links, depth, root_links, req, inserts, seed=0, raw_order=True, mixed="first"):
+        self.mixed = mixed  # links between an order port and a value port: only as the first link ("first") or always ("all")
         self.raw_order = raw_order
         self.max_nodes, self.max_links, self.root_links = max_nodes, max_links, root_links
         self.req, self.inserts, self.seed = req, inserts, seed
@@ -80,6 +91,10 @@ class Machine:
                     evs.append(["add_order", a, b])
                     if self.raw_order:
                         evs.append(["add_link", a, ORDER, b, ORDER])  # an order link added as a plain link (may repeat)
+                        # "arbitrary ports": a link between an order port and a value port is accepted by add_link
+                        if self.mixed == "all" or not ref.links:
+                            evs.append(["add_link", a, ORDER, b, 0])
+                            evs.append(["add_link", a, 1, b, ORDER])
         for a in ends:
             for b in ends:
                 for so in OFFS:
